@@ -24,6 +24,7 @@ mod c17;
 mod core;
 mod explorer;
 mod fields;
+mod sqrtclass;
 mod sut;
 
 use crate::core::*;
@@ -109,6 +110,9 @@ fn dispatch(ctx: &Arc<Ctx>) -> &'static str {
             explorer::run(ctx, explorer::Sel::from(&ctx.prop).unwrap());
             if ctx.prop == "C01" {
                 c02::run(ctx, c02::Mode::C01b);
+            }
+            if ctx.prop == "C01" || ctx.prop == "C03" {
+                explorer::structured_points(ctx);
             }
             if ctx.prop == "C05" {
                 c05::run(ctx);
@@ -201,6 +205,10 @@ fn replay(doc: &Value) -> i32 {
                     (ok, Value::Array(trace))
                 }
                 e if e.starts_with("E3/C10") || e.starts_with("E1/C10") => match guarded(|| c10::replay(&doc["case"])) {
+                    Ok(r) => r,
+                    Err(m) => (false, Value::String(format!("panic: {m}"))),
+                },
+                e if e.starts_with("E3/points") => match guarded(|| explorer::replay_point(&doc["case"], &prop)) {
                     Ok(r) => r,
                     Err(m) => (false, Value::String(format!("panic: {m}"))),
                 },
